@@ -59,6 +59,7 @@ extern "C" {
     fn iorec_delays_done() -> u64;
     fn iorec_short(ppm: u32, seed: u64);
     fn iorec_shorts_done() -> u64;
+    fn iorec_short_reads_done() -> u64;
 }
 
 #[cfg(not(feature = "shim"))]
@@ -77,6 +78,7 @@ mod nolink {
     pub unsafe fn iorec_delays_done() -> u64 { 0 }
     pub unsafe fn iorec_short(_: u32, _: u64) {}
     pub unsafe fn iorec_shorts_done() -> u64 { 0 }
+    pub unsafe fn iorec_short_reads_done() -> u64 { 0 }
 }
 #[cfg(not(feature = "shim"))]
 use nolink::*;
@@ -134,7 +136,8 @@ pub fn seed(s: u64) {
     unsafe { iorec_seed(s) }
 }
 /// From now on a write of two or more bytes to a watched file completes only partly with probability
-/// `ppm` / 1e6 (a legal short count; `write_all` comes back with the rest). 0 switches it off.
+/// `ppm` / 1e6 (a legal short count; `write_all` comes back with the rest), and a `read` from a watched
+/// file returns less than asked with the same probability. 0 switches it off.
 pub fn short_writes(ppm: u32, seed: u64) {
     unsafe { iorec_short(ppm, seed) }
 }
@@ -159,6 +162,9 @@ impl Drop for ShortEnv {
         watch(None);
         log_reset();
     }
+}
+pub fn short_reads_done() -> u64 {
+    unsafe { iorec_short_reads_done() }
 }
 pub fn shorts_done() -> u64 {
     unsafe { iorec_shorts_done() }
